@@ -14,6 +14,7 @@ mod k_mm;
 mod k_nv;
 mod k_queue;
 mod k_tree;
+mod k_unit;
 mod util;
 
 use std::io::{self, BufRead, Write};
@@ -34,6 +35,7 @@ fn dispatch(kind: &str, args: &[&str]) -> String {
         "nv" => k_nv::run(args),
         "enum" | "enumv" => k_enum::run(kind, args),
         "nlist" | "clist" => k_list::run(kind, args),
+        "unit" | "ampl" | "db" => k_unit::run(kind, args),
         "tree" => k_tree::run(args),
         _ => format!("UNKNOWN-KIND {}", kind),
     }
